@@ -1363,7 +1363,9 @@ namespace xsimd
                         if (all(test))
                             return select(a == constants::minusinfinity<batch_type>(), constants::nan<batch_type>(), select(inf_result, constants::infinity<batch_type>(), r));
                     }
-                    batch_type r1 = other(a);
+                    // lanes below -34 take their result from large_negative: park them on a harmless argument, otherwise the
+                    // u < 2 recurrence of other() runs |a| iterations for them (and never ends once a + p == a)
+                    batch_type r1 = other(select(test, batch_type(2.), a));
                     batch_type r2 = select(test, r, r1);
                     return select(a == constants::minusinfinity<batch_type>(), constants::nan<batch_type>(), select(inf_result, constants::infinity<batch_type>(), r2));
                 }
